@@ -5,6 +5,7 @@ import os
 from .common import *
 
 WHAT = {
+    "hang": "a call did not return within 20 s",
     "impure": "a result is not a function of the call's arguments: it differs from the same call made on a fresh thread (state carried between calls) or from the same date's entry of the range / parallel range API",
     "c01": "Dhuhr is missing or the independent ephemeris puts the Sun's hour angle at the reported Dhuhr more than 14 s (10 + 3 + 1) from the meridian",
     "c02": "Sun's centre is not at -0.833 +- 0.065 degree at the reported Shurooq/Maghrib, or the time is on the wrong side of noon",
@@ -105,4 +106,4 @@ def validate(rep, pid, sub, gen_args, heap="6g", max_violations=12, stateful=Fal
                 dev = max(dev, abs(((tb - (ta + d)) + 43200) % 86400 - 43200))
             e = dict(e, absd=abs(e["d"]), dev=dev, abslat=abs(e["site"]["lat"]))
         rep.violation(WHAT.get(e["ev"], "unmatched event"), e, extra)
-    return info, [e for e in events if e.get("ev") != "impure"]
+    return info, [e for e in events if e.get("ev") not in ("impure", "hang")]
